@@ -23,11 +23,14 @@ Report(prop, what, detail) ==
     PrintT(<<"MISMATCH", ToJson([prop |-> prop, line |-> l, what |-> what, detail |-> detail])>>)
 Chk(cond, prop, what, detail) == IF cond THEN TRUE ELSE Report(prop, what, detail)
 
+\* a model is looked up through an index only if it holds a value (not "", not unset) in one of its columns
+HasData(ix, probe) == \E i \in DOMAIN ix.cols : probe[ix.cols[i]] \notin {"", "nil"}
+
 \* first index (of the given kinds, in configuration order) in which the probe's value occurs
 RECURSIVE FirstHit(_, _, _, _, _)
 FirstHit(cfg, tbl, probe, kinds, i) ==
     IF i > Len(cfg.indexes) THEN {}
-    ELSE IF cfg.indexes[i].type \in kinds /\ Matching(cfg.indexes[i], tbl, probe) # {}
+    ELSE IF cfg.indexes[i].type \in kinds /\ HasData(cfg.indexes[i], probe) /\ Matching(cfg.indexes[i], tbl, probe) # {}
          THEN Matching(cfg.indexes[i], tbl, probe)
          ELSE FirstHit(cfg, tbl, probe, kinds, i + 1)
 
